@@ -370,6 +370,26 @@ def _p(x) -> str:
     return hashlib.blake2b(pickle.dumps(x, protocol=4), digest_size=8).hexdigest()
 
 
+def cache_value_view(v, depth: int = 0) -> Any:
+    """Picklable view of whatever a cache holds (one map, a list of maps, ...): the mapping tables and
+    attributes of map objects, containers recursively.  Must not assume the shape of the entry: a
+    change of the cache layout is something to report through the outputs, not a reason to crash."""
+    if depth > 4:
+        return repr(type(v))
+    if isinstance(v, (list, tuple)):
+        return [cache_value_view(x, depth + 1) for x in v]
+    if isinstance(v, dict):
+        return v
+    parts = [type(v).__name__]
+    for attr in ("code2cid", "cid2unichr", "attrs"):
+        if hasattr(v, attr):
+            try:
+                parts.append((attr, dict(getattr(v, attr))))
+            except Exception:  # noqa: BLE001
+                parts.append((attr, repr(type(getattr(v, attr)))))
+    return parts
+
+
 def snapshot() -> Dict[str, Any]:
     from pdfminer import settings
     from pdfminer.cmapdb import CMapDB
@@ -385,8 +405,8 @@ def snapshot() -> Dict[str, Any]:
                                 for k, v in EncodingDB.encodings.items()))
     s["encsum"] = [sum((k * 65537 + ord(v)) * (k + 7) for k, v in getattr(EncodingDB, n).items()) % 2305843009213693951
                    for n in tabs]
-    s["cmaps"] = {k: _p((v.code2cid, dict(v.attrs))) for k, v in CMapDB._cmap_cache.items()}
-    s["umaps"] = {k: _p([(u.cid2unichr, dict(u.attrs)) for u in v]) for k, v in CMapDB._umap_cache.items()}
+    s["cmaps"] = {k: _p(cache_value_view(v)) for k, v in CMapDB._cmap_cache.items()}
+    s["umaps"] = {k: _p(cache_value_view(v)) for k, v in CMapDB._umap_cache.items()}
     s["lits"] = set(PSLiteralTable.dict)
     s["kws"] = set(PSKeywordTable.dict)
     s["intern_ok"] = all(v.name == k for k, v in PSLiteralTable.dict.items()) and \
@@ -950,7 +970,8 @@ class NameIds:
 
 
 def fontspec_tokens(fd: P.FontDesc, cm: NameIds, um: NameIds, gidx: Dict[str, int]) -> List[int]:
-    t: List[int] = [KIND[fd.kind], fd.base, len(fd.diffs)]
+    kind = 3 if (fd.kind == "cid-predef" and fd.identity) else KIND[fd.kind]
+    t: List[int] = [kind, int(fd.vertical), fd.base, len(fd.diffs)]
     for code, g in fd.diffs:
         t += [code, gidx.get(g, 99999)]
     t += [1 if "ToUnicode" in fd.obj else 0, len(fd.tounicode)]
@@ -962,7 +983,7 @@ def fontspec_tokens(fd: P.FontDesc, cm: NameIds, um: NameIds, gidx: Dict[str, in
 
 def show_codes(fd: P.FontDesc, s: bytes, cm: NameIds) -> List[int]:
     if fd.kind == "cid-predef":
-        return [cm.get(fd.cmap)]          # synthetic CMap content on the model side: one code that it maps
+        return [cm.get(fd.cmap) if fd.cmap else 1]          # synthetic CMap content on the model side: one code that it maps
     if fd.kind == "cid-identity":
         return [s[i] * 256 + s[i + 1] for i in range(0, len(s) - 1, 2)]
     return list(s)
